@@ -192,7 +192,7 @@ Example c08_nonvacuous :
             RV32Decode.decode [179; 2; 115; 0] = Some ("add"%string, [5; 6; 7]) /\
             Nat.ltb 30 (List.length rv_covered) = true.
 Proof.
-  exists (desc_at table_riscv 9). split.
-  - unfold desc_at. apply nth_In. apply Nat.ltb_lt. vm_compute. reflexivity.
-  - vm_compute. repeat split; reflexivity.
+  destruct (find (fun d => String.eqb (mnemonic d) "add") table_riscv) as [d|] eqn:Ef; [|vm_compute in Ef; discriminate].
+  exists d. split; [exact (proj1 (find_some _ _ Ef))|].
+  vm_compute in Ef. inversion Ef; subst d. vm_compute. repeat split; reflexivity.
 Qed.
